@@ -6,7 +6,7 @@ From Coq Require Import List Arith ZArith QArith Qabs Reals Qreals Lra Lia Bool.
 From Param Require Import Param.
 From TLV Require Import Base.Ops Base.RSum Base.Transfer Model.Prox Model.ProxSvtGap Corr.Common Corr.C12
   Proofs.ProxProofs Proofs.ProxProofsIso Proofs.ProxProofsMatrix Proofs.ProxProofsSvt Proofs.ProxProofsSvtList Proofs.ProxProofsSvtPerturb
-  Proofs.ProxProofsSvtGap Proofs.ProxSvtGapTransfer.
+  Proofs.ProxProofsSvtGap Proofs.ProxSvtGapTransfer Proofs.ProxProofsProcrustesGap.
 Import ListNotations.
 
 Parametricity Recursive gram_cols.
@@ -140,4 +140,38 @@ Proof.
   - apply Forall_forall. intros x Hx. apply in_map_iff in Hx. destruct Hx as (q & <- & Hq). rewrite forallb_forall in Hs0.
     specialize (Hs0 q Hq). apply Qle_bool_iff, Qle_Rle in Hs0. rewrite Q2R_zero in Hs0. exact Hs0.
   - apply Qle_bool_iff, Qle_Rle in Ht. rewrite Q2R_zero in Ht. exact Ht.
+Qed.
+
+(* ---------- procrustes: the same per-case certificate *)
+Parametricity Recursive procrustes_gap.
+Parametricity Recursive procrustes_with.
+Lemma procrustes_gap_transfer e d U s V M :
+  Q2R (procrustes_gap Qops e d U s V M)
+  = procrustes_gap Rops (Q2R e) (Q2R d) (map (map Q2R) U) (map Q2R s) (map (map Q2R) V) (map (map Q2R) M).
+Proof.
+  exact (procrustes_gap_R Q R QR Qops Rops ops_rel e _ (QR_refl e) d _ (QR_refl d) U _ (list_list_R_of_map U) s _ (list_R_of_map s)
+                          V _ (list_list_R_of_map V) M _ (list_list_R_of_map M)).
+Qed.
+Lemma procrustes_transfer U V : map (map Q2R) (procrustes_with Qops U V) = procrustes_with Rops (map (map Q2R) U) (map (map Q2R) V).
+Proof. apply list_list_R_map. apply procrustes_with_R; [apply ops_rel | apply list_list_R_of_map | apply list_list_R_of_map]. Qed.
+Theorem procrustes_case_certified (m n k : nat) (U : list (list Q)) (s : list Q) (V M : list (list Q)) (d : Q) :
+  procrustes_case_ok m n k U s V M d = true ->
+  forall Qm : nat -> nat -> R, ocols m n Qm \/ ocols n m (fun j i => Qm i j) ->
+  frob m n Qm (mfun (map (map Q2R) M))
+  <= frob m n (mfun (map (map Q2R) (procrustes_with Qops U V))) (mfun (map (map Q2R) M))
+     + Q2R (procrustes_gap Qops (1 # 1000000000) d U s V M).
+Proof.
+  intros H Qm HQ. unfold procrustes_case_ok in H. repeat rewrite andb_true_iff in H.
+  destruct H as [[[[[[[[[[Hm Hn] Hk] HU] Hs] HV] HM] Hs0] Hd] GU] GV].
+  apply Nat.leb_le in Hm. apply Nat.leb_le in Hn. apply Nat.leb_le in Hk.
+  pose proof (rectb_rect _ _ _ HU) as RU. apply Nat.eqb_eq in Hs. pose proof (rectb_rect _ _ _ HV) as RV. pose proof (rectb_rect _ _ _ HM) as RM.
+  rewrite procrustes_transfer, procrustes_gap_transfer.
+  assert (Ls' : length (map Q2R s) = k) by (rewrite map_length; exact Hs).
+  apply (procrustes_gap_sound m n k _ _ _ _ (Q2R (1 # 1000000000)) (Q2R d) Hm Hk RU Ls' RV RM); auto.
+  - apply gram_cols_close_aocols; assumption.
+  - apply gram_rows_close_aocols; assumption.
+  - apply Forall_forall. intros x Hx. apply in_map_iff in Hx. destruct Hx as (q & <- & Hq). rewrite forallb_forall in Hs0.
+    specialize (Hs0 q Hq). apply Qle_bool_iff, Qle_Rle in Hs0. rewrite Q2R_zero in Hs0. exact Hs0.
+  - apply negb_true_iff in Hd. destruct (Qlt_le_dec 0 d) as [L|L]; [apply Qlt_Rlt in L; rewrite Q2R_zero in L; exact L|].
+    apply Qle_bool_iff in L. congruence.
 Qed.
